@@ -47,7 +47,7 @@ Definition with_unknown {K} (u : list (str * bytes)) (st : titem K) : titem K :=
   mkTI (it_flags st) (it_slots st) u (it_code st) (it_rcs st).
 Definition with_flags {K} (fl : option (bool * bool)) (st : titem K) : titem K :=
   mkTI fl (it_slots st) (it_unknown st) (it_code st) (it_rcs st).
-Definition with_code {K} (c : option (N * N * list str * K)) (st : titem K) : titem K :=
+Definition with_code {K} (c : option (N * N * list str * list row * K)) (st : titem K) : titem K :=
   mkTI (it_flags st) (it_slots st) (it_unknown st) c (it_rcs st).
 Definition with_rcs {K} (r : list (N * N * K)) (st : titem K) : titem K :=
   mkTI (it_flags st) (it_slots st) (it_unknown st) (it_code st) r.
@@ -94,9 +94,9 @@ Proof. intros H. apply flat_map_ext_in. exact H. Qed.
 
 (* ---------- the nested items: what the lemma needs to know about Code and record components ---------- *)
 Record nested_ok {K} (ct : ctx_table) (m : mask) (pe : ev -> list ev) (nb : nbuild K) (na : naccept K) : Prop := mkNO {
-  no_code : forall attr ms ml fs es k, nb_code nb fs es = Ok k ->
-    if keep_ct ct m attr then Forall2 sim_item (na_code na attr ms ml fs k) (pe (ECode attr ms ml fs es))
-    else pe (ECode attr ms ml fs es) = [];
+  no_code : forall attr ms ml fs xr es k, nb_code nb fs es = Ok k ->
+    if keep_ct ct m attr then Forall2 sim_item (na_code na attr ms ml fs xr k) (pe (ECode attr ms ml fs xr es))
+    else pe (ECode attr ms ml fs xr es) = [];
   no_rc : forall attr i n d es c, nb_rc nb es = Ok c ->
     if keep_ct ct m attr then Forall2 sim_item [na_rc na attr i n d c] (pe (ERc attr i n d (Some es)))
     else pe (ERc attr i n d (Some es)) = [];
@@ -141,8 +141,29 @@ Proof.
   - rewrite IH. f_equal. f_equal. f_equal. lia.
 Qed.
 
-Lemma rows_with_rows l : map fst (filter snd (with_rows l)) = l.
-Proof. unfold with_rows. induction l as [|x l IH]; [reflexivity|]. cbn [map filter snd fst]. rewrite IH. reflexivity. Qed.
+Lemma flat_one_each l : flat_rows (one_each l) = l.
+Proof.
+  unfold one_each, flat_rows. induction l as [|[n r] l IH]; [reflexivity|].
+  cbn [map flat_map fst snd app]. rewrite IH. reflexivity.
+Qed.
+
+(* filtering the rows by the attribute they came from = filtering the attributes *)
+Lemma filter_flat_rows (p : str -> bool) srcs :
+  filter (fun r => p (fst r)) (flat_rows srcs) = flat_rows (filter (fun x => p (fst x)) srcs).
+Proof.
+  unfold flat_rows. induction srcs as [|[n rs] srcs IH]; [reflexivity|].
+  cbn [flat_map fst snd filter]. rewrite filter_app, IH.
+  destruct (p n) eqn:E; cbn [flat_map fst snd].
+  - f_equal. apply filter_all_true. intros x Hx. apply in_map_iff in Hx as (r & <- & _). exact E.
+  - rewrite filter_all_false; [reflexivity|]. intros x Hx. apply in_map_iff in Hx as (r & <- & _). exact E.
+Qed.
+
+Lemma flat_rows_nil srcs : (forall x, In x srcs -> is_nil (snd x) = false) -> is_nil (flat_rows srcs) = is_nil srcs.
+Proof.
+  destruct srcs as [|[n rs] srcs]; intros H; [reflexivity|].
+  specialize (H (n, rs) (or_introl eq_refl)). cbn [snd] in H.
+  destruct rs; [discriminate|]. reflexivity.
+Qed.
 
 Lemma Forall2_refl_sim l : Forall2 sim_item l l.
 Proof.
@@ -179,7 +200,7 @@ Proof.
   - exact F.
 Qed.
 
-Lemma filter_keep_all ct m g (srcs : list (str * bool)) :
+Lemma filter_keep_all {B} ct m g (srcs : list (str * B)) :
   (forall x, In x srcs -> gov ct (fst x) = Some g) ->
   filter (fun x => keep_ct ct m (fst x)) srcs = if interested m g then srcs else [].
 Proof.
@@ -245,7 +266,7 @@ Lemma step_grows {K} ct except ac AT (nb : nbuild K) (na : naccept K) m pe (st s
   build_step true ct ac nb st e = Ok st' ->
   grows ct ac AT na m st st' (pe e).
 Proof.
-  intros Hct CF Hal Hno Hb. destruct e as [name raw body | d sy | slot srcs | attr | attr ms ml fs es | attr k n d [es|] | | ];
+  intros Hct CF Hal Hno Hb. destruct e as [name raw body | d sy | slot srcs | attr | attr ms ml fs xr es | attr k n d [es|] | | ];
     cbn [build_step] in Hb; try discriminate.
   - (* EAttr *)
     destruct (act_full ct name) as [[| | [|? ?] | [|] | |]|] eqn:Ea; try discriminate.
@@ -288,7 +309,7 @@ Proof.
     destruct (find_row V (ac_builder ac)) as [row|] eqn:Erow; [|discriminate].
     destruct (negb (forallb (fun x => stores_into ct slot (fst x)) srcs)) eqn:Est; [discriminate|].
     apply negb_false_iff in Est.
-    destruct (true && (is_nil srcs || negb (forallb snd srcs) && replayed_by_locals ac (b_field row))) eqn:Estrict; [discriminate|].
+    destruct (true && (is_nil srcs || existsb (fun x => is_nil (snd x)) srcs && replayed_by_locals ac (b_field row))) eqn:Estrict; [discriminate|].
     cbn [andb] in Estrict. apply orb_false_iff in Estrict as [Hnil Hloc].
     destruct (b_mode row) eqn:Emode; try discriminate.
     destruct (assoc (b_field row) (it_slots st)) eqn:Enone; [discriminate|]. injection Hb as <-.
@@ -306,13 +327,13 @@ Proof.
         apply (forallb_In' _ _ _ Est Hx). }
       rewrite (filter_keep_all ct m g srcs Hgov).
       apply (grows_of_decomp ct ac AT na m (CSlot (b_field row)) _ st _
-               (if interested m g then [EDeferred slot (with_rows (map fst (filter snd srcs)))] else []) _ Eu).
+               (if interested m g then [EDeferred slot (one_each (flat_rows srcs))] else []) _ Eu).
       * intros s0 H0. apply untouched_slot. exact H0.
       * unfold run_step'. cbn [run_step set_slot it_slots it_flags]. rewrite <- Hf, Enone, assoc_set_same, Hr.
         destruct (interested m g); reflexivity.
       * destruct (interested m g); [|constructor].
         destruct srcs as [|x0 srcs0]; [discriminate Hnil|]. constructor; [|constructor].
-        cbn [sim_item sim_leaf]. split; [reflexivity|]. unfold same_rows. apply rows_with_rows.
+        cbn [sim_item sim_leaf]. split; [reflexivity|]. unfold same_rows. apply flat_one_each.
     + (* replayed by Code::accept's filter: local variables *)
       apply andb_prop in Hs as [Hs Hnames]. apply andb_prop in Hs as [Hf HV].
       apply str_eqb_eq in Hf, HV. subst V'.
@@ -321,26 +342,34 @@ Proof.
         unfold replayed_by_locals. apply existsb_exists. exists (SLocals flags f V kinds). split.
         - rewrite Hsteps. apply in_or_app. right. left. reflexivity.
         - rewrite Hf. apply str_eqb_refl. }
-      rewrite Hrl, andb_true_r in Hloc. apply negb_false_iff in Hloc.
+      rewrite Hrl, andb_true_r in Hloc.
       assert (Hk : forall x, In x srcs -> exists g, gov ct (fst x) = Some g /\ kind_flag AT kinds (fst x) = Some g /\ mem g flags = true).
       { intros x Hx.
         pose proof (stored_names_spec ct except slot _ (fst x) Hct Hnames (forallb_In' _ _ _ Est Hx)) as Hp.
         cbv beta in Hp. destruct (gov ct (fst x)) as [g|]; [|discriminate].
         apply andb_prop in Hp as [Hp1 Hp2]. apply ostr_eqb_eq in Hp1. exists g. auto. }
-      assert (Hall : filter snd srcs = srcs) by (apply filter_all_true; intros x Hx; apply (forallb_In' _ _ _ Hloc Hx)).
+      (* strict: every attribute that fed the table has rows *)
+      assert (Hne : forall x, In x srcs -> is_nil (snd x) = false).
+      { intros x Hx. destruct (is_nil (snd x)) eqn:E; [|reflexivity].
+        assert (existsb (fun x => is_nil (snd x)) srcs = true) by (apply existsb_exists; exists x; auto). congruence. }
       set (P := fun n : str => match kind_flag AT kinds n with Some g => interested m g | None => false end).
-      assert (HS : filter P (map fst srcs) = map fst (filter (fun x => keep_ct ct m (fst x)) srcs)).
-      { rewrite filter_map_comm. f_equal. apply filter_ext_in. intros x Hx.
-        destruct (Hk x Hx) as (g & Hg1 & Hg2 & _). unfold P. rewrite Hg2, (keep_gov ct m _ g Hg1). reflexivity. }
       set (S := filter (fun x => keep_ct ct m (fst x)) srcs) in *.
+      assert (HS : filter (fun r : str * Model.row => P (fst r)) (flat_rows srcs) = flat_rows S).
+      { rewrite filter_flat_rows. f_equal. apply filter_ext_in. intros x Hx.
+        destruct (Hk x Hx) as (g & Hg1 & Hg2 & _). unfold P. rewrite Hg2, (keep_gov ct m _ g Hg1). reflexivity. }
+      assert (HSne : is_nil (flat_rows S) = is_nil S).
+      { apply flat_rows_nil. intros x Hx. apply filter_In in Hx as [Hx _]. exact (Hne x Hx). }
+      assert (Hlne : is_nil (flat_rows srcs) = false).
+      { rewrite (flat_rows_nil srcs Hne). destruct srcs; [discriminate Hnil|reflexivity]. }
       apply (grows_of_decomp ct ac AT na m (CSlot (b_field row)) _ st _
-               (match S with [] => [] | _ => [EDeferred slot (with_rows (map fst S))] end) _ Eu).
+               (match S with [] => [] | _ => [EDeferred slot (one_each (flat_rows S))] end) _ Eu).
       * intros s0 H0. apply untouched_slot. exact H0.
-      * unfold run_step'. cbn [run_step set_slot it_slots it_flags]. rewrite <- Hf, Enone, assoc_set_same, Hr, Hall.
-        fold P. rewrite HS.
+      * unfold run_step'. cbn [run_step set_slot it_slots it_flags]. rewrite <- Hf, Enone, assoc_set_same, Hr.
+        change (filter (fun r : str * Model.row => match kind_flag AT kinds (fst r) with Some g => interested m g | None => false end) (flat_rows srcs))
+          with (filter (fun r : str * Model.row => P (fst r)) (flat_rows srcs)).
+        rewrite HS, Hlne, HSne. cbn [orb].
         destruct (existsb (interested m) flags) eqn:Eex.
-        -- destruct srcs as [|x0 srcs0]; [discriminate Hnil|]. cbn [map is_nil orb].
-           destruct S; reflexivity.
+        -- destruct S; reflexivity.
         -- (* no flag of the guard is on: no source is kept *)
            assert (HSn : S = []).
            { apply filter_all_false. intros x Hx. destruct (Hk x Hx) as (g & Hg1 & _ & Hg3).
@@ -350,12 +379,9 @@ Proof.
              { apply existsb_exists. exists g. split; [|exact Ei].
                unfold mem in Hg3. apply existsb_exists in Hg3 as (y & Hy & Hyg). apply str_eqb_eq in Hyg. subst y. exact Hy. }
              congruence. }
-           rewrite HSn. destruct (assoc (b_field row) (it_slots st)); reflexivity.
-      * assert (HSall : forall x, In x S -> snd x = true).
-        { intros x Hx. apply filter_In in Hx as [Hx _]. apply (forallb_In' _ _ _ Hloc Hx). }
-        destruct S as [|y S0] eqn:ES; [constructor|]. constructor; [|constructor].
-        cbn [sim_item sim_leaf]. split; [reflexivity|]. unfold same_rows. rewrite rows_with_rows.
-        rewrite (filter_all_true snd (y :: S0) HSall). reflexivity.
+           rewrite HSn. reflexivity.
+      * destruct S as [|y S0] eqn:ES; [constructor|]. constructor; [|constructor].
+        cbn [sim_item sim_leaf]. split; [reflexivity|]. unfold same_rows. apply flat_one_each.
   - (* ECode *)
     destruct (act_full ct attr) as [[| | | |sk|]|] eqn:Ea; try discriminate.
     destruct (row_of ac attr) as [row|] eqn:Erow; [|discriminate].
@@ -369,9 +395,9 @@ Proof.
     destruct (unique_step CCode (ac_steps ac)) as [s|] eqn:Eu; [|discriminate].
     unfold entry_step_ok in Hs. rewrite Emode in Hs. destruct s; try discriminate.
     apply andb_prop in Hs as [Hs HV]. apply andb_prop in Hs as [Hg _]. apply str_eqb_eq in Hg, HV. subst flag visit.
-    pose proof (no_code _ _ _ _ _ Hno attr ms ml fs es k Enb) as Hn. rewrite (keep_gov ct m attr g Eg) in Hn.
-    change (mkTI (it_flags st) (it_slots st) (it_unknown st) (Some (ms, ml, fs, k)) (it_rcs st)) with (with_code (Some (ms, ml, fs, k)) st).
-    apply (grows_of_decomp ct ac AT na m CCode _ st _ (if interested m g then na_code na attr ms ml fs k else []) _ Eu).
+    pose proof (no_code _ _ _ _ _ Hno attr ms ml fs xr es k Enb) as Hn. rewrite (keep_gov ct m attr g Eg) in Hn.
+    change (mkTI (it_flags st) (it_slots st) (it_unknown st) (Some (ms, ml, fs, xr, k)) (it_rcs st)) with (with_code (Some (ms, ml, fs, xr, k)) st).
+    apply (grows_of_decomp ct ac AT na m CCode _ st _ (if interested m g then na_code na attr ms ml fs xr k else []) _ Eu).
     + intros s0 H0. apply untouched_code. exact H0.
     + unfold run_step'. cbn [run_step with_code it_code it_flags]. rewrite Ecode, Hr.
       destruct (interested m g); reflexivity.
